@@ -33,8 +33,11 @@ import (
 	"github.com/99designs/gqlgen/graphql/handler/lru"
 	"github.com/99designs/gqlgen/graphql/handler/transport"
 
+	"verif/common"
+	"verif/exech/driver"
 	"verif/explore"
 	"verif/handschema"
+	"verif/probe"
 	"verif/rig"
 	"verif/vrt"
 )
@@ -410,12 +413,65 @@ func scenarios(tier string) []*explore.Scenario {
 	return out
 }
 
+// generatedServerPairs is the second stage: on a server GENERATED from the tree under
+// test (nested selection sets, field merging, fragments - which the hand-written schema
+// lacks), two requests with the same query text and different variables are served
+// concurrently by one executor with a query cache, i.e. they execute the same cached
+// document; every interleaving within the bound must give each request the response the
+// reference executor computes for it alone (exech/pair.go).
+func generatedServerPairs(c *common.Check, tier string, _ []explore.Stats) {
+	cfgs := []driver.ProbeConfig{driver.CfgDefault}
+	budget := 40 * time.Second
+	if tier == "thorough" {
+		cfgs = append(cfgs, driver.CfgWorker2, driver.CfgFollowSchema)
+		budget = 4 * time.Minute
+	}
+	builds := driver.BuildAll("exec", cfgs)
+	defer probe.Cleanup()
+	for _, b := range builds {
+		if b.Err != nil {
+			probe.Cleanup()
+			common.Broken("generated-server stage, config %s: %v", b.Cfg.Name, b.Err)
+		}
+	}
+	sts := driver.RunSched("C07", tier, builds, budget)
+	var execs, trans int64
+	exhaustive := true
+	var rows []map[string]any
+	for _, st := range sts {
+		if st.Broken != "" {
+			probe.Cleanup()
+			common.Broken("%s", st.Broken)
+		}
+		execs += st.Execs
+		trans += st.Transitions
+		if !st.Exhaustive {
+			exhaustive = false
+		}
+		rows = append(rows, map[string]any{"scenario": st.Scenario, "schedules": st.Execs, "distinct_outcomes": st.NOutcomes, "exhaustive": st.Exhaustive})
+		for _, f := range st.Found {
+			c.Report("generated-server:"+f.Sig+"@"+st.Scenario, f.Msg, f)
+		}
+	}
+	c.Cov["generated_server_pairs"] = map[string]any{"schedules": execs, "transitions": trans, "exhaustive": exhaustive, "deviation_bound": 2, "scenarios": rows}
+	if v, ok := c.Cov["states"].(int64); ok {
+		c.Cov["states"] = v + execs
+	}
+	if v, ok := c.Cov["transitions"].(int64); ok {
+		c.Cov["transitions"] = v + trans
+	}
+	if !exhaustive {
+		c.Cov["exhaustive"] = false
+	}
+}
+
 func main() {
 	explore.Main(explore.Options{
 		Prop: "C07", Level: "model_checking",
 		Cfg:       func(string) explore.Config { return explore.Config{Bound: 2, MaxSteps: 20000} },
 		Scenarios: scenarios,
-		BudgetQ:   120 * time.Second, BudgetT: 12 * time.Minute,
+		Extra:     generatedServerPairs,
+		BudgetQ:   100 * time.Second, BudgetT: 11 * time.Minute,
 		Assume: []string{
 			"deterministic resolvers (hand-written schema); the body of ctxinfo exposes operation name, variables, extensions, X-Verif header and raw query of the operation context, so any leak changes the body",
 			"sync.Pool is modelled: Get answers 'recycled' or 'fresh' (GC emptied the pool) as an enumerated environment choice",
